@@ -1095,7 +1095,8 @@ def run_r5_samples(repo: Repo) -> tuple[str, str, str]:
         inputs = f"all_modules={SAMPLE_MODULES}, level_limit={limit}"
         stray = [n for n in nodes if n not in known]
         if stray:
-            return "bad", f"with {inputs} and an import of `{next((b for a, b in SAMPLE_IMPORTS if flat(b) == stray[0] or flat(a) == stray[0]), stray[0])}` the graph has the node `{stray[0]}`, which is not a module: imported names that are not modules become nodes", ""
+            culprit = next((f"{a} -> {b}" for a, b in SAMPLE_IMPORTS for x in (a, b) if stray[0] == flat(x) or stray[0] in [flat(p) for p in parents(x)]), "?")
+            return "bad", f"with {inputs} and the import `{culprit}` the graph has the node `{stray[0]}`, which is not a module: imported names that are not modules become nodes (and later imports of them edges)", ""
         missing = sorted(expected - got)
         if missing:
             a, b = next((a, b) for a, b in SAMPLE_IMPORTS if (flat(a), flat(b)) == missing[0])
